@@ -16,7 +16,7 @@ Definition alloc_max : N := 4294967296.          (* model assumption: malloc(n) 
 
 (* read(fd, buf, want) at position pos *)
 Definition k_read_at (i : nat) (pos want : N) : M (str + errno) :=
-  sys (CRead (N.to_nat (N.min want alloc_max)))
+  sys (CReadN want)
       (fun f => let bytes := f_bytes (get_file f i) in
                 let len := N.of_nat (length bytes) in
                 let b := if len <=? pos then []
